@@ -312,6 +312,17 @@ def r09_3(rep: Report) -> None:
         rep.fail(rid, tconstruct, 'publishTime has whole seconds',
                  f'publishTime keeps sub-second precision that int(timestamp()) in the patch URL drops '
                  f'({frac[0].key}: {frac[0].message[:120]})', tinit)
+    # ... and a symbolic start backs off only at the start of the calendar unit it is anchored at (C08 R08.9):
+    # otherwise availabilityStartTime, and with it every SegmentTimeline @t, moves backward between a manifest
+    # and the patch that is applied to it
+    back = [f for f in sub.findings if f.rule == 'R08.9' and f.key.startswith('back-off')
+            and match_known(f, known_c08) is None]
+    if not back:
+        rep.ok(rid, tconstruct, 'availabilityStartTime stands still between a manifest and its patch',
+               'every back-off of a symbolic start is confined to the start of its calendar unit')
+    else:
+        rep.fail(rid, tconstruct, 'availabilityStartTime stands still between a manifest and its patch',
+                 f'{back[0].key}: {back[0].message[:260]}', tinit)
     # manifests that advertise patches satisfy ServePatch's demands
     mtree = rep.repo.tree('dashlive/server/manifests.py')
     n = 0
